@@ -1,1 +1,302 @@
-/* placeholder */
+/*
+ * C01 rung 1, bn_t level: structural, bitwise and additive functions of include/math/big_num.h.
+ * Included from contracts/bn.h.
+ *
+ * Vocabulary (specs/bn_spec.h): VF_BN_WF(*p) well-formed, VF_BN_VAL(*p) value now,
+ * VF_BN_OLDVAL(p) value at entry, VF_BN_CAP(*p) = 2^(W*count).  Inputs are well-formed; digits at
+ * index >= digits are never constrained (stale storage).  Operands may alias wherever the API
+ * permits it (bn == n): entry values are always taken with VF_BN_OLDVAL.
+ * Pointers are non-NULL valid objects (the NULL -> EINVAL branches of BN_POINTER_CHK_EINVAL are
+ * exercised by harness/C01/nullchk.c).
+ */
+#ifndef VF_CONTRACTS_BN_STRUCT_H
+#define VF_CONTRACTS_BN_STRUCT_H
+#ifndef VF_REPLAY
+
+#define VF_BN_IN(p)	(VF_BN_OK(p) && VF_BN_WF(*(p)))
+/* two bn_t operands are the same object or do not overlap (they may be members of one struct) */
+#define VF_BN_SEP(a, b)	((a) == (b) || !__CPROVER_same_object((a), (b)) ||	\
+	(const char *)((a) + 1) <= (const char *)(b) || (const char *)((b) + 1) <= (const char *)(a))
+#define VF_BN_CNT_OK(p)	((p)->count >= 1 && (p)->count <= BN_MAX_DIGITS)
+#define VF_SIGN(x, y)	(((x) > (y)) ? 1 : (((x) < (y)) ? -1 : 0))
+/* bit length of a value: smallest r with v < 2^r */
+#define VF_BITLEN_IS(v, r)	((v) < VF_POW2(r) && ((r) == 0 || (v) >= VF_POW2((r) - 1)))
+
+static inline int
+bn_init(bn_p bn, size_t bits)
+__CPROVER_requires(VF_BN_OK(bn))
+__CPROVER_assigns(bn->count, bn->digits)
+__CPROVER_ensures(__CPROVER_return_value == ((bits == 0 || bits > BN_BIT_LEN) ? EINVAL : 0))
+__CPROVER_ensures(__CPROVER_return_value == 0 ==> (bn->digits == 0 && VF_BN_WF(*bn) &&
+    bn->count * BN_DIGIT_BITS >= bits && (bn->count - 1) * BN_DIGIT_BITS < bits))
+;
+
+/* digit-count maintenance (lazy zeroing) */
+static inline size_t
+bn_calc_digits(bn_p bn)
+__CPROVER_requires(VF_BN_OK(bn) && VF_BN_CNT_OK(bn))
+__CPROVER_assigns(bn->digits)
+__CPROVER_ensures(__CPROVER_return_value == bn->digits && VF_BN_WF(*bn))
+__CPROVER_ensures(VF_BN_VAL(*bn) == VF_DIGITS_VAL(bn->num, bn->count))
+;
+static inline void
+bn_update(bn_p bn)
+__CPROVER_requires(VF_BN_OK(bn) && VF_BN_CNT_OK(bn))
+__CPROVER_assigns(bn->digits)
+__CPROVER_ensures(VF_BN_WF(*bn))
+__CPROVER_ensures(VF_BN_VAL(*bn) == VF_DIGITS_VAL(bn->num, bn->count))
+;
+/* zero-extends the significant part up to digit_off (clipped to count): value unchanged when the
+ * digit count is raised to any d <= MAX(digits, MIN(digit_off, count)) */
+static inline void
+bn_init_digits__int(bn_p bn, size_t digit_off)
+__CPROVER_requires(VF_BN_OK(bn) && VF_BN_CNT_OK(bn) && bn->digits <= bn->count)
+__CPROVER_assigns(__CPROVER_object_upto(bn->num, sizeof(bn->num)))
+__CPROVER_ensures(VF_DIGITS_VAL(bn->num, MAX(bn->digits, MIN(digit_off, bn->count))) == VF_BN_OLDVAL(bn))
+;
+/* renormalises: the number is contained in the low MIN(count, MAX(digits_arg, bn->digits)) digits */
+static inline void
+bn_update_digits__int(bn_p bn, size_t digits)
+__CPROVER_requires(VF_BN_OK(bn) && VF_BN_CNT_OK(bn) && bn->digits <= bn->count)
+__CPROVER_assigns(bn->digits)
+__CPROVER_ensures(VF_BN_WF(*bn))
+__CPROVER_ensures(VF_BN_VAL(*bn) ==
+    VF_DIGITS_VAL(bn->num, MIN(bn->count, MAX(digits, __CPROVER_old(bn->digits)))))
+;
+
+static inline size_t
+bn_calc_bits(bn_p bn)
+__CPROVER_requires(VF_BN_IN(bn))
+__CPROVER_assigns()
+__CPROVER_ensures(__CPROVER_return_value <= bn->digits * BN_DIGIT_BITS)
+__CPROVER_ensures(VF_BITLEN_IS(VF_BN_VAL(*bn), __CPROVER_return_value))
+;
+static inline size_t
+bn_ctz(bn_p bn)
+__CPROVER_requires(VF_BN_IN(bn))
+__CPROVER_assigns()
+__CPROVER_ensures(VF_BN_VAL(*bn) == 0 ==> __CPROVER_return_value == 0)
+__CPROVER_ensures(VF_BN_VAL(*bn) != 0 ==> (__CPROVER_return_value < bn->digits * BN_DIGIT_BITS &&
+    ((VF_BN_VAL(*bn) >> __CPROVER_return_value) & 1) == 1 &&
+    (VF_BN_VAL(*bn) & (VF_POW2(__CPROVER_return_value) - 1)) == 0))
+;
+/* leading zeros within the capacity: W*count - bitlen(val) */
+static inline size_t
+bn_clz(bn_p bn)
+__CPROVER_requires(VF_BN_IN(bn))
+__CPROVER_assigns()
+__CPROVER_ensures(__CPROVER_return_value <= bn->count * BN_DIGIT_BITS &&
+    VF_BITLEN_IS(VF_BN_VAL(*bn), bn->count * BN_DIGIT_BITS - __CPROVER_return_value))
+;
+
+static inline int
+bn_is_zero(bn_p bn)
+__CPROVER_requires(VF_BN_IN(bn))
+__CPROVER_assigns()
+__CPROVER_ensures((__CPROVER_return_value != 0) == (VF_BN_VAL(*bn) == 0))
+;
+static inline int
+bn_is_one(bn_p bn)
+__CPROVER_requires(VF_BN_IN(bn))
+__CPROVER_assigns()
+__CPROVER_ensures((__CPROVER_return_value != 0) == (VF_BN_VAL(*bn) == 1))
+;
+static inline size_t
+bn_is_pow2(bn_p bn)
+__CPROVER_requires(VF_BN_IN(bn))
+__CPROVER_assigns()
+__CPROVER_ensures((__CPROVER_return_value != 0) ==
+    (VF_BN_VAL(*bn) != 0 && (VF_BN_VAL(*bn) & (VF_BN_VAL(*bn) - 1)) == 0))
+;
+static inline int
+bn_is_even(bn_p bn)	/* as coded: zero is neither even nor odd */
+__CPROVER_requires(VF_BN_IN(bn))
+__CPROVER_assigns()
+__CPROVER_ensures((__CPROVER_return_value != 0) == (VF_BN_VAL(*bn) != 0 && (VF_BN_VAL(*bn) & 1) == 0))
+;
+static inline int
+bn_is_odd(bn_p bn)
+__CPROVER_requires(VF_BN_IN(bn))
+__CPROVER_assigns()
+__CPROVER_ensures((__CPROVER_return_value != 0) == ((VF_BN_VAL(*bn) & 1) == 1))
+;
+
+static inline int
+bn_cmp(bn_p a, bn_p b)
+__CPROVER_requires(VF_BN_IN(a) && VF_BN_IN(b))
+__CPROVER_assigns()
+__CPROVER_ensures(__CPROVER_return_value == VF_SIGN(VF_BN_VAL(*a), VF_BN_VAL(*b)))
+;
+static inline int
+bn_is_equal(bn_p a, bn_p b)
+__CPROVER_requires(VF_BN_IN(a) && VF_BN_IN(b))
+__CPROVER_assigns()
+__CPROVER_ensures((__CPROVER_return_value != 0) == (VF_BN_VAL(*a) == VF_BN_VAL(*b)))
+;
+
+static inline int
+bn_is_bit_set(bn_p bn, size_t bit)
+__CPROVER_requires(VF_BN_IN(bn))
+__CPROVER_assigns()
+__CPROVER_ensures((__CPROVER_return_value != 0) ==
+    (bit < BN_BIT_LEN && ((VF_BN_VAL(*bn) >> (bit < BN_BIT_LEN ? bit : 0)) & 1) == 1))
+;
+static inline int
+bn_bit_set(bn_p bn, size_t bit, int val)
+__CPROVER_requires(VF_BN_IN(bn))
+__CPROVER_assigns(VF_BN_FRAME(bn))
+__CPROVER_ensures(__CPROVER_return_value == ((bit / BN_DIGIT_BITS >= bn->count) ? EOVERFLOW : 0))
+__CPROVER_ensures(__CPROVER_return_value == 0 ==> VF_BN_WF(*bn))
+__CPROVER_ensures(__CPROVER_return_value == 0 ==> VF_BN_VAL(*bn) ==
+    ((val != 0) ? (VF_BN_OLDVAL(bn) | VF_POW2(bit < BN_BIT_LEN ? bit : 0)) :
+     (VF_BN_OLDVAL(bn) & ~VF_POW2(bit < BN_BIT_LEN ? bit : 0))))
+__CPROVER_ensures(__CPROVER_return_value != 0 ==> (VF_BN_WF(*bn) && VF_BN_VAL(*bn) == VF_BN_OLDVAL(bn)))
+;
+
+/* ---- assignments ---- */
+static inline int
+bn_assign(bn_p dst, bn_p src)
+__CPROVER_requires(VF_BN_OK(dst) && VF_BN_CNT_OK(dst) && VF_BN_IN(src))
+__CPROVER_requires(VF_BN_SEP(dst, src))
+__CPROVER_requires(dst != src || VF_BN_WF(*dst))
+__CPROVER_assigns(VF_BN_FRAME(dst))
+__CPROVER_ensures(__CPROVER_return_value == ((dst != src && __CPROVER_old(src->digits) > dst->count) ? EOVERFLOW : 0))
+__CPROVER_ensures(__CPROVER_return_value == 0 ==> (VF_BN_WF(*dst) && VF_BN_VAL(*dst) == VF_BN_OLDVAL(src)))
+;
+static inline int
+bn_assign_init(bn_p dst, bn_p src)
+__CPROVER_requires(VF_BN_OK(dst) && VF_BN_IN(src))
+__CPROVER_requires(VF_BN_SEP(dst, src))
+__CPROVER_assigns(dst->count, VF_BN_FRAME(dst))
+__CPROVER_ensures(__CPROVER_return_value == 0)
+__CPROVER_ensures(VF_BN_WF(*dst) && dst->count == __CPROVER_old(src->count) && VF_BN_VAL(*dst) == VF_BN_OLDVAL(src))
+;
+static inline void
+bn_assign_zero(bn_p bn)
+__CPROVER_requires(VF_BN_OK(bn) && VF_BN_CNT_OK(bn))
+__CPROVER_assigns(bn->digits)
+__CPROVER_ensures(VF_BN_WF(*bn) && VF_BN_VAL(*bn) == 0)
+;
+static inline int
+bn_assign_2exp(bn_p bn, size_t exp)
+__CPROVER_requires(VF_BN_OK(bn) && VF_BN_CNT_OK(bn))
+__CPROVER_assigns(VF_BN_FRAME(bn))
+__CPROVER_ensures(__CPROVER_return_value == ((exp / BN_DIGIT_BITS >= bn->count) ? EOVERFLOW : 0))
+__CPROVER_ensures(__CPROVER_return_value == 0 ==> (VF_BN_WF(*bn) &&
+    VF_BN_VAL(*bn) == VF_POW2(exp < BN_BIT_LEN ? exp : 0)))
+;
+static inline int
+bn_assign_digit(bn_p bn, bn_digit_t digit)
+__CPROVER_requires(VF_BN_OK(bn) && VF_BN_CNT_OK(bn))
+__CPROVER_assigns(VF_BN_FRAME(bn))
+__CPROVER_ensures(__CPROVER_return_value == 0)
+__CPROVER_ensures(VF_BN_VAL(*bn) == digit)
+__CPROVER_ensures(VF_BN_WF(*bn))
+;
+
+/* ---- shifts ----
+ * bn_l_shift: bn = (bn << bits) mod 2^(W*count); void, bits shifted out above the capacity are
+ * dropped as coded ("Data lost here").  Domain bits < W*count: every in-tree call site
+ * (bn_div: bits = clz < W; bn_gcd_bin: common factor of two; bn_sqrt*: 1, 2; bn_self_test:
+ * j < BN_BIT_LEN == W*count).  Outside it bn_digits_l_shift's memmove length underflows (F2).
+ * bn_r_shift: bn >>= bits.  Domain bits < W*digits (or bn == 0): every in-tree call site (1, 2, 3
+ * on non-zero numbers or numbers just tested; clz-normalisation shift; ctz of a non-zero number;
+ * bn_self_test shifts back what it shifted in). */
+static inline void
+bn_l_shift(bn_p bn, size_t bits)
+__CPROVER_requires(VF_BN_IN(bn) && bits < bn->count * BN_DIGIT_BITS)
+__CPROVER_assigns(VF_BN_FRAME(bn))
+__CPROVER_ensures(VF_BN_WF(*bn))
+__CPROVER_ensures(VF_BN_VAL(*bn) == ((VF_BN_OLDVAL(bn) << bits) & (VF_BN_CAP(*bn) - 1)))
+;
+static inline void
+bn_r_shift(bn_p bn, size_t bits)
+__CPROVER_requires(VF_BN_IN(bn) && (bn->digits == 0 || bits < bn->digits * BN_DIGIT_BITS))
+__CPROVER_assigns(VF_BN_FRAME(bn))
+__CPROVER_ensures(VF_BN_WF(*bn))
+__CPROVER_ensures(VF_BN_VAL(*bn) == (VF_BN_OLDVAL(bn) >> ((bits < BN_BIT_LEN) ? bits : 0)))
+;
+
+/* ---- bitwise ---- */
+#define VF_BN_BINOP_PRE(bn, n)	(VF_BN_IN(bn) && VF_BN_IN(n) && VF_BN_SEP(bn, n))
+static inline int
+bn_and(bn_p bn, bn_p n)
+__CPROVER_requires(VF_BN_BINOP_PRE(bn, n))
+__CPROVER_assigns(VF_BN_FRAME(bn))
+__CPROVER_ensures(__CPROVER_return_value == 0)
+__CPROVER_ensures(VF_BN_WF(*bn))
+__CPROVER_ensures(VF_BN_VAL(*bn) == (VF_BN_OLDVAL(bn) & VF_BN_OLDVAL(n)))
+;
+static inline int
+bn_or(bn_p bn, bn_p n)
+__CPROVER_requires(VF_BN_BINOP_PRE(bn, n))
+__CPROVER_assigns(VF_BN_FRAME(bn))
+__CPROVER_ensures(__CPROVER_return_value == ((__CPROVER_old(n->digits) > bn->count) ? EOVERFLOW : 0))
+__CPROVER_ensures(__CPROVER_return_value == 0 ==> (VF_BN_WF(*bn) &&
+    VF_BN_VAL(*bn) == (VF_BN_OLDVAL(bn) | VF_BN_OLDVAL(n))))
+;
+static inline int
+bn_xor(bn_p bn, bn_p n)
+__CPROVER_requires(VF_BN_BINOP_PRE(bn, n))
+__CPROVER_assigns(VF_BN_FRAME(bn))
+__CPROVER_ensures(__CPROVER_return_value == ((__CPROVER_old(n->digits) > bn->count) ? EOVERFLOW : 0))
+__CPROVER_ensures(__CPROVER_return_value == 0 ==> (VF_BN_WF(*bn) &&
+    VF_BN_VAL(*bn) == (VF_BN_OLDVAL(bn) ^ VF_BN_OLDVAL(n))))
+;
+
+/* ---- add / subtract ----
+ * val' == (val +- n) mod 2^(W*count); carry/borrow is the overflow bit.  bn_add_digit and
+ * bn_sub_digit return without touching *carry when n == 0 (as coded). */
+/* carry / borrow out-parameter: NULL or a digit outside the operands */
+#define VF_BN_DIGIT_OUTSIDE(c, bn)	(!__CPROVER_same_object((c), (bn)) ||	\
+	(const char *)((c) + 1) <= (const char *)(bn) || (const char *)((bn) + 1) <= (const char *)(c))
+#define VF_BN_CARRY_OK(c, bn)	((c) == NULL || (VF_D_OK(c) && VF_BN_DIGIT_OUTSIDE(c, bn)))
+static inline void
+bn_add_digit(bn_p bn, bn_digit_t n, bn_digit_t *carry)
+__CPROVER_requires(VF_BN_IN(bn) && VF_BN_CARRY_OK(carry, bn))
+__CPROVER_assigns(VF_BN_FRAME(bn))
+__CPROVER_assigns(carry != NULL && n != 0: *carry)
+__CPROVER_ensures(VF_BN_WF(*bn))
+__CPROVER_ensures(VF_BN_VAL(*bn) == ((VF_BN_OLDVAL(bn) + n) & (VF_BN_CAP(*bn) - 1)))
+__CPROVER_ensures((carry != NULL && n != 0) ==> *carry == ((VF_BN_OLDVAL(bn) + n >= VF_BN_CAP(*bn)) ? 1 : 0))
+;
+static inline int
+bn_add(bn_p bn, bn_p n, bn_digit_t *carry)
+__CPROVER_requires(VF_BN_BINOP_PRE(bn, n) && VF_BN_CARRY_OK(carry, bn) &&
+    (carry == NULL || VF_BN_DIGIT_OUTSIDE(carry, n)))
+__CPROVER_assigns(VF_BN_FRAME(bn))
+__CPROVER_assigns(carry != NULL: *carry)
+__CPROVER_ensures(__CPROVER_return_value == ((__CPROVER_old(n->digits) > bn->count) ? EOVERFLOW : 0))
+__CPROVER_ensures(VF_BN_WF(*bn))
+__CPROVER_ensures(__CPROVER_return_value == 0 ==>
+    VF_BN_VAL(*bn) == ((VF_BN_OLDVAL(bn) + VF_BN_OLDVAL(n)) & (VF_BN_CAP(*bn) - 1)))
+__CPROVER_ensures((__CPROVER_return_value == 0 && carry != NULL) ==>
+    *carry == ((VF_BN_OLDVAL(bn) + VF_BN_OLDVAL(n) >= VF_BN_CAP(*bn)) ? 1 : 0))
+__CPROVER_ensures(__CPROVER_return_value != 0 ==> VF_BN_VAL(*bn) == VF_BN_OLDVAL(bn))
+;
+static inline void
+bn_sub_digit(bn_p bn, bn_digit_t n, bn_digit_t *borrow)
+__CPROVER_requires(VF_BN_IN(bn) && VF_BN_CARRY_OK(borrow, bn))
+__CPROVER_assigns(VF_BN_FRAME(bn))
+__CPROVER_assigns(borrow != NULL && n != 0: *borrow)
+__CPROVER_ensures(VF_BN_WF(*bn))
+__CPROVER_ensures(VF_BN_VAL(*bn) == ((VF_BN_OLDVAL(bn) + VF_BN_CAP(*bn) - n) & (VF_BN_CAP(*bn) - 1)))
+__CPROVER_ensures((borrow != NULL && n != 0) ==> *borrow == ((VF_BN_OLDVAL(bn) < n) ? 1 : 0))
+;
+static inline int
+bn_sub(bn_p bn, bn_p n, bn_digit_t *borrow)
+__CPROVER_requires(VF_BN_BINOP_PRE(bn, n) && VF_BN_CARRY_OK(borrow, bn) &&
+    (borrow == NULL || VF_BN_DIGIT_OUTSIDE(borrow, n)))
+__CPROVER_assigns(VF_BN_FRAME(bn))
+__CPROVER_assigns(borrow != NULL: *borrow)
+__CPROVER_ensures(__CPROVER_return_value == ((__CPROVER_old(n->digits) > bn->count) ? EOVERFLOW : 0))
+__CPROVER_ensures(VF_BN_WF(*bn))
+__CPROVER_ensures(__CPROVER_return_value == 0 ==>
+    VF_BN_VAL(*bn) == ((VF_BN_OLDVAL(bn) + VF_BN_CAP(*bn) - VF_BN_OLDVAL(n)) & (VF_BN_CAP(*bn) - 1)))
+__CPROVER_ensures((__CPROVER_return_value == 0 && borrow != NULL) ==>
+    *borrow == ((VF_BN_OLDVAL(bn) < VF_BN_OLDVAL(n)) ? 1 : 0))
+__CPROVER_ensures(__CPROVER_return_value != 0 ==> VF_BN_VAL(*bn) == VF_BN_OLDVAL(bn))
+;
+
+#endif /* !VF_REPLAY */
+#endif
